@@ -5,6 +5,7 @@ C19 (code points) and the length clauses of C09 / C10 say, for the functions `ru
 /repo's working tree; what is trusted for them is the translator and `Mir/Sem.lean` only.
 -/
 import Mctp.Tie.Tables
+import Mctp.Tie.Enums
 import Mctp.Mir.Meta
 import Mctp.Spec.Layout
 import Mctp.Spec.Accept
